@@ -86,6 +86,7 @@ fn classify_err(e: &str) -> &'static str {
 pub fn writer_fault(input: &[u8], from: Option<Fmt>, to: Fmt, k: usize, style: FaultStyle, reader: Option<&Sched>, clean: &[u8], acc: &mut Acc) {
     acc.evals += 1;
     acc.count("writer_fault_points");
+    acc.count(&format!("writer_fault_style_{style:?}"));
     let w = MonWriter::new().with_fault(k, style);
     let wlog = w.log_handle();
     let v = match reader {
@@ -190,7 +191,7 @@ pub fn run(ctx: &Ctx) -> i32 {
             let wstep = if clean.out.len() > 2048 { clean.out.len() / 64 } else { 1 };
             let mut k = 0;
             while k < clean.out.len() {
-                let style = if k % 2 == 0 { FaultStyle::ShortThenFail } else { FaultStyle::RejectCrossing };
+                let style = [FaultStyle::ShortThenFail, FaultStyle::RejectCrossing, FaultStyle::ZeroLen, FaultStyle::RejectCrossing, FaultStyle::ShortThenFail, FaultStyle::ZeroLen, FaultStyle::ShortThenFail][k % 7];
                 let reader = if k % 3 == 0 { Some(&scheds[1]) } else { None };
                 writer_fault(&input, from, to, k, style, reader, &clean.out, acc);
                 k += wstep;
@@ -203,9 +204,40 @@ pub fn run(ctx: &Ctx) -> i32 {
             flush_fault(ALL[i % 4], acc);
         }
     });
-    let rule = format!("{} generated valid inputs (1-3 documents, each format in turn, every third YAML input re-encoded as UTF-16/32 with characters outside the BMP, <= 2 KiB plus a stratified sample above) x [explicit, detected] x rotating target, restricted to combinations whose fault-free run succeeds; for each: the reader fails and keeps failing after k bytes for EVERY k in 0..=len under rotating schedules [all, one, random]; the writer fails after accepting k bytes for EVERY k below the fault-free length in two styles (short accept then fail / reject the crossing write), from slice and reader input; 4 short-write patterns; flush faults; distinct non-trivial = distinct (input, from, to) combinations", n);
+    // outputs far larger than any buffer between the serializer and the writer (one heavy document of
+    // thousands of entries and 64 KiB strings, to every target incl. TOML): writers that accept only part
+    // of each call, and faults at sampled offsets
+    let n_big = ctx.size(24, 600);
+    let big = crate::par::run(n_big, 1, |i, acc| {
+        let mut rng = Rng::derive(seed, 0xc12b, i as u64);
+        let to = ALL[i % 4];
+        let d = crate::gen::gen_heavy_doc(&mut rng);
+        let d = if to == Fmt::Toml { match crate::gen::tomlify(&d) { Some(t) => t, None => return } } else { d };
+        let mut feats = Feats::default();
+        let src = [Fmt::Json, Fmt::Msgpack, Fmt::Yaml][(i / 4) % 3];
+        let input = crate::spell::spell(src, &d, &mut rng, &mut feats, true);
+        let clean = run_slice(&input, Some(src), to);
+        if !clean.verdict.is_ok() {
+            acc.count("fault_free_run_fails_skipped");
+            return;
+        }
+        acc.count("large_output_cases");
+        acc.max("largest_output_bytes", clean.out.len() as u64);
+        acc.distinct(&(input.clone(), "big", to.name()));
+        for m in [1000usize, 4096, 8192, 65536, 70000, 1 << 20] {
+            short_writes(&input, Some(src), to, rng.next(), m, &clean.out, acc);
+        }
+        for j in 0..12 {
+            let k = rng.below(clean.out.len().max(1));
+            let style = [FaultStyle::ShortThenFail, FaultStyle::RejectCrossing, FaultStyle::ZeroLen][j % 3];
+            writer_fault(&input, Some(src), to, k, style, if j % 2 == 0 { Some(&Sched::Fixed(8192)) } else { None }, &clean.out, acc);
+        }
+    });
+    let mut acc = acc;
+    acc.merge(big);
+    let rule = format!("{} generated valid inputs (1-3 documents, each format in turn, every third YAML input re-encoded as UTF-16/32 with characters outside the BMP, <= 2 KiB plus a stratified sample above) x [explicit, detected] x rotating target, restricted to combinations whose fault-free run succeeds; for each: the reader fails and keeps failing after k bytes for EVERY k in 0..=len under rotating schedules [all, one, random]; the writer fails after accepting k bytes for EVERY k below the fault-free length in three styles (short accept then fail / reject the crossing write / accept nothing more: Ok(0)), from slice and reader input; 4 short-write patterns; {} heavy documents (thousands of entries, 64 KiB strings) to every target incl. TOML under 6 short-write patterns (at most 1000 .. 1 MiB bytes accepted per call) and 12 sampled writer faults; flush faults; distinct non-trivial = distinct (input, from, to) combinations", n, n_big);
     ev::finish(
-        Finish { ctx, level: "fault_enumeration", rule, assumptions: vec!["for YAML output one trailing '---' header after the last complete document is allowed (the writer emits it before pulling the next document)".into(), "writer-fault error text is judged in C11, not here".into()], extra: serde_json::Map::new(), exhaustive: false, min_distinct: 200, must_reach: vec![("reader_faults_delivered".into(), 10000), ("writer_fault_points".into(), 10000), ("short_write_runs".into(), 500), ("flush_fault_runs".into(), 4), ("inputs_utf16_32_with_astral_characters".into(), 20)] },
+        Finish { ctx, level: "fault_enumeration", rule, assumptions: vec!["for YAML output one trailing '---' header after the last complete document is allowed (the writer emits it before pulling the next document)".into(), "writer-fault error text is judged in C11, not here".into()], extra: serde_json::Map::new(), exhaustive: false, min_distinct: 200, must_reach: vec![("reader_faults_delivered".into(), 10000), ("writer_fault_points".into(), 10000), ("short_write_runs".into(), 500), ("flush_fault_runs".into(), 4), ("inputs_utf16_32_with_astral_characters".into(), 20), ("writer_fault_style_ZeroLen".into(), 2000), ("large_output_cases".into(), 12)] },
         acc,
     )
 }
@@ -230,7 +262,7 @@ pub fn replay(v: &Value) -> i32 {
     match kind {
         "reader" => reader_fault(&input, from, to, k as usize, &Sched::parse(detail).unwrap_or(Sched::All), &clean.out, &mut acc),
         "writer" => {
-            let style = if detail.starts_with("Reject") { FaultStyle::RejectCrossing } else { FaultStyle::ShortThenFail };
+            let style = if detail.starts_with("Reject") { FaultStyle::RejectCrossing } else if detail.starts_with("ZeroLen") { FaultStyle::ZeroLen } else { FaultStyle::ShortThenFail };
             let sched = detail.split('|').nth(1).and_then(Sched::parse);
             writer_fault(&input, from, to, k as usize, style, sched.as_ref(), &clean.out, &mut acc)
         }
